@@ -16,36 +16,7 @@ from .cfg import strip_generics, ExploreCap
 from .dataflow import TRANSPARENT
 
 
-def roots(body, op, depth=10, seen=None):
-    """Locals from which an operand is derived through refs/derefs/moves/transparent calls."""
-    out = set()
-    if op["k"] not in ("copy", "move"):
-        return out
-    l = op["pl"]["l"]
-    seen = seen or set()
-    if l in seen or depth <= 0:
-        return out
-    seen.add(l)
-    out.add(l)
-    for d in body.defs().get(l, []):
-        if d[0] == "stmt":
-            rv = d[3]["rv"]
-            if rv["k"] in ("use", "cast") and rv["ops"][0]["k"] in ("copy", "move"):
-                out |= roots(body, rv["ops"][0], depth - 1, seen)
-            elif rv["k"] in ("ref", "rawptr"):
-                out |= roots(body, {"k": "copy", "pl": rv["pl"]}, depth - 1, seen)
-        elif d[0] == "call":
-            t = d[3]
-            nm = strip_generics(t.get("resolved") or t.get("callee"))
-            if (nm in TRANSPARENT or nm in EXTRA_TRANSPARENT) and t["args"]:
-                out |= roots(body, t["args"][0], depth - 1, seen)
-    return out
-
-
-EXTRA_TRANSPARENT = {
-    "compaction::state::CompactionState::compaction_manifest_mut",
-    "compaction::state::CompactionState::compaction_manifest",
-}
+from .dataflow import roots  # noqa: E402,F401
 
 
 class Spec:
